@@ -128,6 +128,8 @@ TOOLS7 = {
     # (sorted with a failing key is left out: the stdlib collects the whole input before calling key,
     #  asyncstdlib interleaves - how much a FAILING sorted consumed is not something C07/C08 pin down)
     "list": (lambda h, k: a.list(h), lambda m, k: list(m), True),
+    # the items are no pairs: dict fails on the FIRST one and has taken only that one from a shared iterator
+    "dict-of-non-pairs": (lambda h, k: a.dict(h), lambda m, k: dict(m), True),
     "any": (lambda h, k: a.any(a.map(lambda x: x.key == k, h)), lambda m, k: any(map(lambda x: x.key == k, m)), True),
     "min": (lambda h, k: a.min(h, key=lambda x: x.key, default=None), lambda m, k: min(m, key=lambda x: x.key, default=None), True),
     "nlargest": (lambda h, k: a.nlargest(h, k, key=lambda x: x.key), lambda m, k: heapq.nlargest(k, m, key=lambda x: x.key), True),
